@@ -15,6 +15,7 @@ var monitors = map[string]func(*vk.Ctx){
 	"C01":   runC01,
 	"C02":   runC02,
 	"C03":   runC03,
+	"C05":   runC05,
 	"C06":   runC06,
 	"C07":   runC07,
 	"C08":   runC08,
